@@ -135,6 +135,10 @@ InFlight == {w \in Workers : pc[w] \notin {"get", "parked", "exited"}}
 Acc_Ongoing == P.ongoing = Cardinality(InFlight)
 Acc_Open == \A d \in DOMAIN P.open : P.open[d] = Cardinality({x \in BagToSet(P.fringe) : x.depth = d}) \/ P.abort
 Acc_UbVec == \A w \in Workers : (w \in InFlight) = (P.ubVec[w] # Idle \/ node[w].ub = PosInf)
+\* ---- refinement of the counter abstraction whose inductive invariant Apalache discharges for an unbounded number of nodes
+AbsPc == [w \in Workers |-> IF pc[w] \in {"get", "parked", "exited"} THEN pc[w] ELSE "work"]
+Abs == INSTANCE ParCounters WITH Workers <- Workers, f <- FLen(P.fringe), ongoing <- P.ongoing, pc <- AbsPc, abort <- P.abort
+RefinesCounters == [][Abs!Next]_<<FLen(P.fringe), P.ongoing, AbsPc, P.abort>>
 \* the C09-style route invariant of the protocol itself: the optimum is found or still reachable through an open / in-flight node
 RouteExistsT == P.abort \/ P.bestLb = OptT
                 \/ (\E x \in BagToSet(P.fringe) : Tree[x.st].ropt = OptT /\ x.ub > P.bestLb)
